@@ -3,6 +3,7 @@ import re
 
 from bsrules.core import closure_locals_passed
 from bsrules.lib import *
+from bsrules.lib import _expr_call_objs
 
 META = {
     "explanation": (
@@ -185,7 +186,56 @@ def rule_delims(ck):
             ck.ob("table.delimiters", f"{k}/path-components", True, f"path = {a}", f.loc(c.bb))
 
 
+PSI = "debugger::debugee::dwarf::utils::PathSearchIndex::<T>"
+
+
+def rule_index_keys(ck):
+    """the path index never merges or overwrites two inserted entries"""
+    prog = ck.prog
+    ck.rule("mpt.index_fresh_key", "PathSearchIndex::insert_w_head stores every value under a key no earlier insert used: the tail is pushed unconditionally (the push dominates the data insert), the key's tail index is tails.len()-1 read after that push, the head component is the head's nonce, a new head takes next_nonce and increments it, and the tail index is appended to the head's list; get() returns the data of every tail index whose tail ends with the needle's tail (no de-duplication, no early exit)")
+    f = ck.anchor(PSI + "::insert_w_head")
+    pushes = [c for c in f.calls() if c.name.endswith("Vec::<T, A>::push") and ".tails" in expr_str(expr_of(f, c.args[0], depth=6), 6)]
+    ins = [c for c in f.calls() if re.search(r"HashMap::<K, V, S(, A)?>::insert$", c.name) and ".data" in expr_str(expr_of(f, c.args[0], depth=6), 6)]
+    if not ck.ob("mpt.index_fresh_key", "insert_w_head/one-tail-push-one-data-insert", len(pushes) == 1 and len(ins) == 1, f"{len(pushes)} tail pushes, {len(ins)} data inserts", f.loc()):
+        return
+    pu, di = pushes[0], ins[0]
+    ck.ob("mpt.index_fresh_key", "insert_w_head/tail-pushed-on-every-path", f.dominates(pu.bb, di.bb), "the push of the tail does not dominate the data insert: two inserts can share a tail slot and the second value overwrites the first", f.loc(pu.bb), what="two entries with the same full path (monomorphizations of one generic function, same-named files) collapse into one")
+    key = expr_of(f, di.args[1], depth=10)
+    ks = expr_str(key, 10)
+    ok = key[0] == "agg" and key[1] == "tuple" and len(key[4]) == 2
+    idx_ok = nonce_ok = False
+    if ok:
+        k0, k1 = key[4]
+        nonce_ok = ".1" in expr_str(k0, 8) and "or_insert_with" in expr_str(k0, 8)
+        lens = [c for c in _expr_call_objs(k1) if c.name.endswith("Vec::<T, A>::len")]
+        idx_ok = k1[0] in ("bin", "field") and "Sub" in expr_str(k1, 6) and len(lens) == 1 and ".tails" in expr_str(expr_of(f, lens[0].args[0], depth=6), 6) and f.dominates(pu.bb, lens[0].bb) and pu.bb != lens[0].bb
+    ck.ob("mpt.index_fresh_key", "insert_w_head/key=(head-nonce,len-1-after-push)", ok and idx_ok and nonce_ok, f"key = {ks[:140]}", f.loc(di.bb))
+    hp = [c for c in f.calls() if c.name.endswith("Vec::<T, A>::push") and c is not pu]
+    ok = len(hp) == 1 and "or_insert_with" in expr_str(expr_of(f, hp[0].args[0], depth=8), 8) and f.dominates(hp[0].bb, di.bb)
+    ck.ob("mpt.index_fresh_key", "insert_w_head/tail-index-listed-under-head", ok, "", f.loc())
+    # nonce allocation
+    ok = False
+    for g in [prog.fns[p] for p in prog.closures_of(f.path)]:
+        reads = incs = 0
+        for i, j, pl, rv, sp in g.assigns():
+            if rv["r"] == "bin" and rv["op"].startswith("Add") and 1 in (op_const(rv["a"]), op_const(rv["b"])):
+                incs += 1
+        ups = g.raw.get("upvars", [])
+        if incs == 1 and any("next_nonce" in u or "index" in u for u in ups):
+            ok = True
+            ck.saw(g)
+    ck.ob("mpt.index_fresh_key", "insert_w_head/new-head-takes-fresh-nonce", ok, "", f.loc())
+    # get(): no truncation / dedup of the matching tails
+    g = ck.anchor(PSI + "::get")
+    gs = [g] + [prog.fns[p] for p in prog.closures_of(g.path)]
+    # (the `skip(1)` on the needle's own split — a leading delimiter is the root directory — is not a truncation of results)
+    bad = sorted({c.name.split("::")[-1] for h in gs for c in h.calls() if re.search(r"Iterator.*::(take|skip|step_by|take_while|nth|last|next|find|min|max)$|::dedup$|::first$|itertools.*::(unique|dedup)", c.name) and "split(" not in expr_str(expr_of(h, c.args[0], depth=6), 6)})
+    ends = [c for h in gs for c in h.calls() if c.name.endswith("::ends_with")]
+    ck.ob("mpt.index_fresh_key", "get/every-matching-tail", not bad and len(ends) == 1, f"truncating adaptors: {bad}; ends_with sites: {len(ends)}", g.loc())
+
+
 def run(ck):
+    rule_index_keys(ck)
     rule_all_objects(ck)
     rule_symbols(ck)
     rule_delims(ck)
